@@ -556,7 +556,7 @@ def run_standard(spec, tier, seed, replay=None):
         ok, log = run_facts(spec["facts"])
         cov["facts"] = log.strip().splitlines()
         if not ok:
-            rep.broken_obligation("facts translator: " + log.strip()[:400])
+            rep.broken_obligation("facts translator: " + (" | ".join(l for l in log.strip().splitlines() if "UNSUPPORTED" in l) or log.strip())[:400])
             # the committed baseline of the rejected generators' output is put in
             # place so that the SEARCH for a concrete failing input still has a
             # model to run (the rejection above is reported whatever it finds)
